@@ -44,7 +44,7 @@ type c09Params struct {
 func (c09) ID() string    { return "C09" }
 func (c09) Level() string { return "exploration" }
 func (c09) Rule() string {
-	return "each case: stack x role of the real endpoint x suite x client-auth, and one hostile behaviour of an otherwise honest scripted peer drawn from the seed: (mutate) one handshake message truncated at a drawn length / extended / with a byte flipped / with a length-looking field overwritten / replaced by 0-8 arbitrary bytes; (raw) arbitrary or structured garbage records after k honest messages; (certs) certificate lists with RSA, P-256 and Ed25519 keys in either position; (flood) after completion or after k honest messages: handshake records, empty records, warning alerts, huge-fragment announcements and many message sequence numbers (DTLCP). Oracle: no task panics, the endpoint yields within the watchdog and finishes or blocks waiting for input within the step budget, and the hook-reported buffered bytes stay within (65536+4 + one record) + (two records of read-ahead) on the stream stack and 256 reassembly buffers of <= 64 KiB on the datagram stack. distinct = distinct (parameters); non-trivial = the hostile bytes were delivered to a live endpoint"
+	return "each case: stack x role of the real endpoint x suite x client-auth, and one hostile behaviour of an otherwise honest scripted peer drawn from the seed: (mutate) one handshake message truncated at a drawn length / extended / with a byte flipped / with a length-looking field overwritten / replaced by 0-8 arbitrary bytes; (raw) arbitrary or structured garbage records after k honest messages; (certs) certificate lists with RSA, P-256 and Ed25519 keys in either position; (flood) after completion or after k honest messages: handshake records, empty records, warning alerts, huge-fragment announcements, many message sequence numbers, fragments that disagree about the total length (DTLCP), the header of a 16 MiB message packed behind an honest message followed by its body (stream). Oracle: no task panics, the endpoint yields within the watchdog and finishes or blocks waiting for input within the step budget, and the hook-reported buffered bytes stay within (65536+4 + one record) + (two records of read-ahead) on the stream stack and 256 reassembly buffers of <= 64 KiB on the datagram stack. distinct = distinct (parameters); non-trivial = the hostile bytes were delivered to a live endpoint"
 }
 func (c09) Components() (real, stub []string) {
 	return []string{"tlcp/dtlcp client and server (instrumented): record layer, message parsers, key agreement, reassembly"},
@@ -108,7 +108,7 @@ func drawC09(src *vs.Src) *c09Params {
 		}
 	default:
 		p.Mode = "flood"
-		p.Flood = pickStr(src, []string{"handshake", "empty-app", "warning", "hello-request", "big-fragments", "many-seqs", "tiny-fragments"})
+		p.Flood = pickStr(src, []string{"handshake", "empty-app", "warning", "hello-request", "big-fragments", "many-seqs", "tiny-fragments", "coalesced-oversize", "length-conflict"})
 		p.N = 20 + src.Intn(300)
 		if src.Bool(1, 2) {
 			// the flood arrives in the middle of the handshake, after Step honest messages (that is when a
@@ -317,7 +317,28 @@ func (c09) Run(c *Case, src *vs.Src) *Result {
 			}
 			ops = cut
 		}
-		for _, op := range ops {
+		lastSend := -1
+		if p.Mode == "flood" && p.Flood == "coalesced-oversize" && p.Mid {
+			for i, op := range ops {
+				if op[0] != 'r' {
+					lastSend = i
+				}
+			}
+		}
+		for i, op := range ops {
+			if i == lastSend {
+				// the header of a message that announces 16 MiB rides in the same record as the last honest message
+				pr.BeginPack()
+				out := pr.Run(o, []string{op})
+				pr.WriteRecord(ref.RecHandshake, []byte{0x10, 0xff, 0xff, 0xff})
+				pr.EndPack()
+				sample()
+				if out.Err != nil {
+					peerNote = fmt.Sprintf("%s: %v", op, out.Err)
+					break
+				}
+				continue
+			}
 			out := pr.Run(o, []string{op})
 			sample()
 			if out.Err != nil {
@@ -418,6 +439,27 @@ func c09Flood(pr *peer.Peer, p *c09Params, sample func()) {
 				err = pr.WriteRecord(ref.RecHandshake, m.Fragment(0, 20))
 			} else {
 				err = pr.WriteRecord(ref.RecHandshake, m.Encode(false)[:10])
+			}
+		case "coalesced-oversize":
+			// the body of the announced 16 MiB message, record after record (on the datagram stack: fragments of it)
+			if pr.DTLS {
+				m := ref.Msg{Type: ref.TClientKeyExchange, Seq: 4000, Body: make([]byte, 65536)}
+				err = pr.WriteRecord(ref.RecHandshake, m.Fragment((i*1000)%64000, 1000))
+			} else {
+				err = pr.WriteRecord(ref.RecHandshake, make([]byte, 16000))
+			}
+		case "length-conflict":
+			// fragments of one message_seq that disagree about the total length: a small one that the first
+			// fragment almost fills, then one that claims a large total and completes the small buffer
+			if pr.DTLS {
+				seq := uint16(5000 + i)
+				small := ref.Msg{Type: ref.TCertificate, Seq: seq, Body: make([]byte, 10)}
+				large := ref.Msg{Type: ref.TCertificate, Seq: seq, Body: make([]byte, 1000)}
+				if err = pr.WriteRecord(ref.RecHandshake, small.Fragment(0, 5+i%5)); err == nil {
+					err = pr.WriteRecord(ref.RecHandshake, large.Fragment(5+i%5, 5-i%5))
+				}
+			} else {
+				err = pr.WriteRecord(ref.RecHandshake, []byte{ref.TCertificate, 0, 0, 10, 1, 2, 3})
 			}
 		case "tiny-fragments":
 			m := ref.Msg{Type: ref.TCertificate, Seq: 3000, Body: make([]byte, 2000)}
